@@ -57,8 +57,16 @@ class Ref:
 
 
 class Remote:
-    def __init__(self, refs):
+    def __init__(self, refs, repo=None):
         self.refs = refs
+        self._repo = repo
+
+    def fetch(self):
+        """'git fetch': whatever was staged with FakeRepo.stage() arrives (new commits, moved heads, new tags)"""
+        if self._repo is not None and self._repo._staged is not None:
+            spec, self._repo._staged = self._repo._staged, None
+            self._repo._load(spec)
+        return []
 
 
 class FakeRepo:
@@ -68,6 +76,16 @@ class FakeRepo:
     def __init__(self, spec):
         self.name = spec["name"]
         self.git_dir = "/fake/" + self.name
+        self.working_dir = "/fake/" + self.name
+        self._staged = None
+        self.remotes = {"origin": Remote([], self)}
+        self._load(spec)
+
+    def stage(self, spec):
+        """the state the remote will have at the next fetch (a superset of the present one)"""
+        self._staged = spec
+
+    def _load(self, spec):
         self.commits = []
         for i, c in enumerate(spec["commits"]):
             self.commits.append(Commit(self.name, i, c["msg"], c.get("ts", i), c.get("files", {})))
@@ -81,7 +99,7 @@ class FakeRepo:
             self.refs["refs/tags/" + tag] = self.commits[idx]
         rrefs = [Ref(n[len("refs/remotes/"):], c) for n, c in sorted(self.refs.items())
                  if n.startswith("refs/remotes/origin/")]
-        self.remotes = {"origin": Remote(rrefs)}
+        self.remotes["origin"].refs = rrefs
 
     def commit(self, hexsha):
         return self.by_hexsha[hexsha]
